@@ -1,7 +1,7 @@
 """C12 - classes keep their members, bases, metaclass, method kinds and super()."""
 import random
 
-from harness import common, diffexec, gen_class, propkit
+from harness import common, diffexec, gen_class, gen_place, propkit
 
 VFILES = ["theories/Namespace.v", "theories/Lower.v", "theories/ClassNs.v"]
 
@@ -33,6 +33,9 @@ def run(chk, build, replay=None):
         srcs = [srcs[i] for i in idx]
         keys = [keys[i] for i in idx]
     srcs += EXTRA
+    # the class header (bases, metaclass, keywords, decorators) resolved in every kind of defining scope
+    placed = [s for _, s in gen_place.class_placements()]
+    srcs += placed
     replayed = propkit.load_replay_sources(replay)
     if replayed:
         srcs = replayed
@@ -44,4 +47,5 @@ def run(chk, build, replay=None):
                         reject_ok=False)
     chk.samples = [{"skeleton": list(map(str, k))} for k in keys[:4]]
     chk.coverage["input_distribution"] = {"class_programs": len(srcs), "skeleton_product_total": len(progs),
+                                          "header_placement_programs": len(placed),
                                           "exhaustive": chk.tier == "thorough"}
